@@ -811,13 +811,19 @@ Proof.
     destruct h; exact Hfree.
 Qed.
 
+(* the re-poll flag is not part of the invariant *)
+Lemma WFs_set_need c b : WFs c -> WFs (set_need c b).
+Proof. intro W. eapply keep_WFs; [exact W | apply mk_keep; reflexivity | exact (w_slots W)]. Qed.
+
 Lemma chan_readable_WFs fuel n : forall c o c',
   chan_readable fuel n c = (o, c') -> WFs c -> n <> 0 ->
   (forall site, o <> OPanic site) /\ WFs c'.
 Proof.
   induction fuel as [|fuel IH]; intros c o c' H W Hn; cbn [chan_readable] in H.
   - inversion H; subst. split; [discriminate|exact W].
-  - destruct (alookup n (c_slots c)) as [s|] eqn:Hl; [|inversion H; subst; split; [discriminate|exact W]].
+  - destruct (c_high c <? out_len c).
+    { inversion H; subst. split; [discriminate|]. apply WFs_set_need. exact W. }
+    destruct (alookup n (c_slots c)) as [s|] eqn:Hl; [|inversion H; subst; split; [discriminate|exact W]].
     pose proof (all_slots_lookup (w_slots W) Hl) as Hok.
     destruct (s_mail s) as [|m rest] eqn:Hm.
     + destruct (s_mail_tx s); inversion H; subst; split; try discriminate; auto.
@@ -1168,10 +1174,13 @@ Theorem stale_wakeups c :
   handle_event c EvAlloc = (OOk, c, []) /\
   handle_event c EvSetBlocked = (OOk, c, []) /\
   handle_event c (EvChan 0) = (OOk, c, []) /\
-  (forall n, n <> 0 -> alookup n (c_slots c) = None -> handle_event c (EvChan n) = (OOk, c, [])).
+  (* ... nothing is received; only, if the buffer is above the high-water mark, a re-poll of
+     the channels is owed (the check comes first in handle_channel_readable) *)
+  (forall n, n <> 0 -> alookup n (c_slots c) = None ->
+     handle_event c (EvChan n) = (OOk, (if c_high c <? out_len c then set_need c true else c), [])).
 Proof.
   intro Hz. cbn [handle_event]. unfold mail_fuel. rewrite Hz.
   repeat split; cbn [allocate set_blocked ch0_readable]; try (rewrite Hz; reflexivity).
   intros n Hn Hl. destruct (n =? 0) eqn:E; [apply N.eqb_eq in E; contradiction|].
-  cbn [chan_readable]. rewrite Hl. reflexivity.
+  cbn [chan_readable]. rewrite Hl. destruct (c_high c <? out_len c); reflexivity.
 Qed.
